@@ -19,6 +19,9 @@ CLAIMS = {
     "C16": ("proof",
             "Contracts on Molecule.to_xyz_string/from_xyz_string/to_sdf_string/from_sdf_dict, parse_xyz_string and the SDF line writers/readers: the real code is executed on symbolic coordinates with structured strings, giving for all coordinates in range: column alignment of every written field against the published V2000 table, parse(format(x)) within half a unit of the last digit, coordinate k read back as coordinate k, whole-text write->read for two-atom instances; frame obligations show every reader/writer loop is a map, lifting the per-line contracts to any atom count; tables checked against the V2000 standard; all 103 elements and the dispatch table enumerated. Native save/load of seeded molecules (1..200 atoms, bonds, multi-record files) is a bounded stand-in.",
             "CPython format/parse contract and str.split/splitlines/join models (assumed); floats as reals; whole-text obligations are instances at 2 atoms lifted by the map-loop frame argument"),
+    "C02": ("proof",
+            "The property's domain is finite and is enumerated completely on every run: for each of the 530 tabulated (number, choice) settings the real constructor, reduce/expand functions and both lookups are executed and the group axioms (duplicate-free, identity, closure, inverses modulo the lattice, centrosymmetric flag) are decided in exact integer arithmetic on the operations as decoded (the decoding is proved for all codes in C11); table-independent paths (range checks, LATT value and sign) are VCs from the source.",
+            "finite domain = the bundled sgdata.json as loaded; decode spec from C11"),
 }
 
 NA_PENDING = "check not built yet in this session (see DESIGN.md section 8 build order)"
